@@ -23,6 +23,7 @@ vars == <<ps, hist, ncfg, nparse>>
 \* always carries the default exp / nbf validators)
 Base == IF Family = "c15p" THEN "c15" ELSE IF Family = "c16p" THEN "c16" ELSE Family
 Layer == IF Family \in {"c11", "c15p", "c16p"} THEN "prelude" ELSE "generic"
+K2 == IF Family = "c15p" THEN "iat" ELSE "ca"
 Pr == <<4, "local">>
 
 NoClaims == [k \in PKeys |-> "absent"]
@@ -32,7 +33,8 @@ TokTable ==
   CASE Base = "c15" ->
          LET S == {<<a, b>> : a \in GenericVals, b \in (IF Small THEN GenericVals \ {"null"} ELSE GenericVals)} IN
          LET seq == SetToSeq(S) IN
-         [i \in 1..Len(seq) |-> Tok(Org("none"), NoEdit, TRUE, [NoClaims EXCEPT !["iss"] = seq[i][1], !["ca"] = seq[i][2]])]
+         \* the second key is a custom claim on the generic parser and the registered iat on PasetoParser
+         [i \in 1..Len(seq) |-> Tok(Org("none"), NoEdit, TRUE, [NoClaims EXCEPT !["iss"] = seq[i][1], ![K2] = seq[i][2]])]
     [] Base = "c16" ->
          LET S == {<<a, b, f>> : a \in {"absent", "v1", "v2"}, b \in {"absent", "v1", "v2"}, f \in {"none", "f1"}} IN
          LET seq == SetToSeq(S) IN
@@ -51,7 +53,7 @@ Op4(op, k, v, t) == [op |-> op, k |-> k, v |-> v, t |-> t]
 
 \* PasetoParser has no extend_* methods
 CfgOps ==
-  CASE Family = "c15p" -> {Op4("check", k, v, 0) : k \in {"iss", "ca"}, v \in {"v1", "v2"}}
+  CASE Family = "c15p" -> {Op4("check", k, v, 0) : k \in {"iss", "iat"}, v \in {"v1", "v2"}}
     [] Family = "c16p" -> {Op4("validate", k, kind, 0) : k \in {"ca", "cb"}, kind \in {"accept", "reject", "magic"}}
                            \cup {Op4("check", k, "v1", 0) : k \in {"ca", "cb"}}
                            \cup {Op4("footer", "", "f1", 0)}
